@@ -177,30 +177,40 @@ def r3_accept_table(ck, F):
     ck.ob(R, "codec-ids-accepted", ok_ids == [0, 1, 2, 3, 4, 5], f"from_u8 accepts exactly {ok_ids}", F.body(A("from_u8")))
     fu = F.body(A("from_u8"))
     ck.ob(R, "from_u8-total", not panic_sources(F, fu) and not fu.loops(), "from_u8 is a total, loop-free table (no indexing, no arithmetic)", fu)
-    # rejection exits: `?` on seek / read / ok_or, or the magic otherwise-arm; nothing else
-    errs = err_return_sites(b)
-    kinds = []
-    for s, k, p in errs:
-        src = b.expr_of_operand(p["args"][0], s)
-        inner = None
-        for x in src.walk():
-            if x.k == "call" and x.x["path"].endswith("Try>::branch"):
-                inner = x.a[0].strip()
-                break
-        nm = inner.x["path"].rsplit("::", 1)[-1] if inner is not None and inner.k == "call" else "?"
-        kinds.append(nm)
+    # rejection exits: `?` on seek / read / ok_or, or the magic otherwise-arm; nothing else.  Exits are
+    # the alternatives of the returned value; a `?` applied to a value whose construction is visible
+    # (the result of a helper spliced into read_from) stands for that value's own error alternatives.
+    def classify(e, depth=0):
+        out = []
+        for alt in flat_alts(e):
+            if alt.k == "agg" and alt.x.get("variant") == "Ok":
+                out.append(("ok", alt))
+            elif alt.k == "agg" and alt.x.get("variant") == "Err":
+                out.append(("explicit", alt.a[0].show()))
+            elif alt.k == "call" and alt.x["path"].endswith("::from_residual"):
+                br = [x for x in alt.walk() if x.k == "call" and x.x["path"].endswith("Try>::branch")]
+                inner = br[0].a[0] if br else None
+                st = inner.strip() if inner is not None else None
+                if st is not None and st.k == "call":
+                    out.append(("q", st.x["path"].rsplit("::", 1)[-1]))
+                elif inner is not None and depth < 4 and st.k in ("phi", "agg"):
+                    out += [x for x in classify(inner, depth + 1) if x[0] != "ok"]
+                else:
+                    out.append(("q", "?"))
+            else:
+                out.append(("other", alt.show()[:80]))
+        return out
+    exits = classify(b.expr_at_return())
+    kinds = [x[1] for x in exits if x[0] == "q"]
     allowed = {"seek", "read_u8", "read_u32", "read_u64", "ok_or"}
     ck.ob(R, "rejections-are-io-or-codec", set(kinds) <= allowed, f"`?` rejections come from {sorted(set(kinds))}", b)
-    ck.exact(R, "`?` rejection exits in read_from", len(kinds), 13, F.config)
-    explicit = []
-    for s, k, p in b.defs()[0].get(0, []):
-        if k == "assign":
-            e = b._expr_of_def((s, k, p))
-            if e.k == "agg" and e.x.get("variant") == "Err":
-                explicit.append(e.a[0].show())
-    ck.ob(R, "only-explicit-rejection-is-bad-magic", explicit == ["error::Error::InvalidFormatVersion{}"], f"explicit Err exits: {explicit} (expected only InvalidFormatVersion for an unknown magic)", b)
-    oks = [e for e in (b.expr_at_return().a if b.expr_at_return().k == "phi" else [b.expr_at_return()]) if e.k == "agg" and e.x.get("variant") == "Ok"]
-    ck.exact(R, "Ok exits of read_from", len(oks), 2, F.config)
+    ck.floor(R, "`?` rejection exits in read_from", len(kinds), 7, F.config)   # 13 on the pinned tree; 7 = one version's worth
+    explicit = [x[1] for x in exits if x[0] == "explicit"]
+    ck.ob(R, "only-explicit-rejection-is-bad-magic", bool(explicit) and set(explicit) == {"error::Error::InvalidFormatVersion{}"}, f"explicit Err exits: {explicit} (expected only InvalidFormatVersion for an unknown magic)", b)
+    other = [x[1] for x in exits if x[0] == "other"]
+    ck.ob(R, "exits-are-ok-err-or-question-mark", not other, f"every exit of read_from is Ok(Metadata{{..}}), `?` on an I/O or codec-id step, or the bad-magic Err" + (f" — other: {other}" if other else ""), b)
+    oks = [x for x in exits if x[0] == "ok"]
+    ck.floor(R, "Ok exits of read_from", len(oks), 1, F.config)
     # Reader::new adds nothing
     rn = F.body(A("reader_new"))
     cs = [callee_name(c) for s, c, t in rn.calls()]
